@@ -2,7 +2,7 @@
 import muxlib, vlib
 
 PROP_FILES = ['Properties/C01']
-EXTRA_OBLIGATION_FILES = ['Proofs/AtomMux', 'Proofs/AtomClient', 'Proofs/AtomPanel']
+EXTRA_OBLIGATION_FILES = ['Proofs/AtomMux', 'Proofs/AtomClient', 'Proofs/AtomPanel', 'Proofs/AtomWire']
 EXTRACT_FILES = ['Extract/Mux']
 PROFILES = ['data', 'data', 'data', 'big', 'mixed']
 N_QUICK, N_THOROUGH = 260, 4000
@@ -163,3 +163,5 @@ def replay(ctx, verdict):
         print(open(out).read() if os.path.exists(out) else log[-1500:])
         return 0
     return _replay_before_backlog(ctx, verdict)
+
+TRUSTED = TRUSTED + ['the connections under a session deliver whole messages in order (C05): its generated obligations Proofs/AtomWire.v (one exclusive section around WebSocketConn.WriteMessage, one underlying Write per TLSConn.Write, no pooled buffer used after Put) are listed here too, because a session hands frames of several streams to one connection at once']
